@@ -139,6 +139,29 @@ def check_code(blocks, opcodes, oc, where, viol):
         else:
           bad('instruction %d (%s) is in two blocks' % (op.index, op.name))
       seen_ops[id(op)] = b
+  # every instruction that control flow can reach from the first one (fall-through, jump targets, exception-handler targets --
+  # computed on the instruction list itself, independently of the block edges) is in a block of the order
+  if allops:
+    reach, todo_ = set(), [allops[0]]
+    while todo_:
+      o_ = todo_.pop()
+      if id(o_) in reach:
+        continue
+      reach.add(id(o_))
+      if not o_.no_next() and o_.next is not None:
+        todo_.append(o_.next)
+      # real jumps only: the handler targets of the SETUP_* pseudo-instructions are followed by the VM when an exception is
+      # raised, and whether such a handler is scheduled is decided elsewhere (block_target edges) -- not part of this clause
+      if not o_.name.startswith('SETUP_'):
+        for t_ in (getattr(o_, 'target', None), getattr(o_, 'end_async_for_target', None)):
+          if t_ is not None:
+            todo_.append(t_)
+    in_order = {id(op) for b in order for op in b.code}
+    lost = [o_ for o_ in allops if id(o_) in reach and id(o_) not in in_order
+            and o_.name not in ('JUMP_BACKWARD', 'CLEANUP_THROW', 'JUMP_BACKWARD_NO_INTERRUPT')]
+    if lost:
+      bad('%d reachable instruction(s) are in no block of the execution order, e.g. %s at index %d (line %s)' % (
+          len(lost), lost[0].name, lost[0].index, getattr(lost[0], 'line', '?')))
   # execution order lists every block once
   if len({id(b) for b in order}) != len(order):
     bad('a block is listed twice in the order')
